@@ -356,8 +356,10 @@ func finishServer(c *hk.Ctx, s *server, key string) {
 }
 
 // sharedSlicePairs: two servers built from ONE caller-owned middleware slice with spare capacity,
-//   common := append(make([]mcp.Middleware, 0, 4), m0, m1, m2)
-//   server1 = New(WithMiddleware(common...), WithMiddleware(m3));  server2 = New(WithMiddleware(common...), WithMiddleware(m13))
+//
+//	common := append(make([]mcp.Middleware, 0, 4), m0, m1, m2)
+//	server1 = New(WithMiddleware(common...), WithMiddleware(m3));  server2 = New(WithMiddleware(common...), WithMiddleware(m13))
+//
 // Both are built before any request is sent; each server's chain must be exactly what it was configured with.
 func sharedSlicePairs(c *hk.Ctx, bases map[string]map[string]baseline, si0 int) int {
 	n := 0
